@@ -4,7 +4,7 @@
 
    Reading guide.  [encode_v1]/[encode_v2] are the HAProxy specification's encoders; [parse] is the
    accepted language of mastercactapus/proxyprotocol v0.0.4; [handle] is Handler.Handle of
-   modules/l4proxyprotocol as the source has it now ([handle_with false] = before commit cb6bc63);
+   modules/l4proxyprotocol as the source has it now ([handle_with false _] = before commit cb6bc63, [handle_with _ false] = before the proxyConn wrapper);
    [tidy_rules]/[new_conn] its allow list; [upstream_bytes] what dialPeers + proxy make an
    upstream receive.  Streams are byte lists (segmentation: C01). *)
 From Coq Require Import String List ZArith NArith Bool Permutation.
@@ -88,28 +88,28 @@ Proof. exact outside_allow_list_untouched. Qed.
 Theorem C12_received_v1_stripped_and_honoured : forall render6 timeout rules cv h payload,
   ip6_text_ok render6 -> v1_wf h ->
   new_conn timeout rules (c_remote cv) <> None -> c_stream cv = encode_v1_with render6 h ++ payload ->
-  handle timeout rules cv = HNext (accepted_view l4proxyprotocol_handle_sets_placeholders cv (v1_hdr h) payload).
-Proof. exact (fun r => received_v1 r _). Qed.
+  handle timeout rules cv = HNext (accepted_view l4proxyprotocol_handle_sets_placeholders l4proxyprotocol_undeclared_addr_falls_back cv (v1_hdr h) payload).
+Proof. exact (fun r => received_v1 r _ _). Qed.
 Theorem C12_received_v1_unknown_tcp4_stripped_and_honoured : forall render6 timeout rules cv h payload,
   (match h with V1Tcp6 _ _ _ _ => False | _ => True end) -> v1_wf h ->
   new_conn timeout rules (c_remote cv) <> None -> c_stream cv = encode_v1_with render6 h ++ payload ->
-  handle timeout rules cv = HNext (accepted_view l4proxyprotocol_handle_sets_placeholders cv (v1_hdr h) payload).
-Proof. exact (fun r => received_v1_no6 r _). Qed.
+  handle timeout rules cv = HNext (accepted_view l4proxyprotocol_handle_sets_placeholders l4proxyprotocol_undeclared_addr_falls_back cv (v1_hdr h) payload).
+Proof. exact (fun r => received_v1_no6 r _ _). Qed.
 Theorem C12_received_v1_all_stripped_and_honoured : forall timeout rules cv h payload, v1_wf h ->
   new_conn timeout rules (c_remote cv) <> None -> c_stream cv = encode_v1 h ++ payload ->
-  handle timeout rules cv = HNext (accepted_view l4proxyprotocol_handle_sets_placeholders cv (v1_hdr h) payload).
+  handle timeout rules cv = HNext (accepted_view l4proxyprotocol_handle_sets_placeholders l4proxyprotocol_undeclared_addr_falls_back cv (v1_hdr h) payload).
 Proof. exact received_v1_all. Qed.
 Theorem C12_received_v2_stripped_and_honoured : forall timeout rules cv h payload,
   v2_wf h -> s_tlvs h = [] ->
   new_conn timeout rules (c_remote cv) <> None -> c_stream cv = encode_v2 h ++ payload ->
-  handle timeout rules cv = HNext (accepted_view l4proxyprotocol_handle_sets_placeholders cv (v2_hdr h) payload).
-Proof. exact (received_v2 _). Qed.
+  handle timeout rules cv = HNext (accepted_view l4proxyprotocol_handle_sets_placeholders l4proxyprotocol_undeclared_addr_falls_back cv (v2_hdr h) payload).
+Proof. exact (received_v2 _ _). Qed.
 (* a v2 header with TLVs is not accepted: the handler fails, nothing is passed on *)
 Theorem C12_received_v2_tlv_dropped : forall timeout rules cv h payload,
   v2_wf h -> s_tlvs h <> [] -> N.of_nat (length (block_bytes (s_block h) ++ tlvs_bytes (s_tlvs h))) < 65536 ->
   new_conn timeout rules (c_remote cv) <> None -> c_stream cv = encode_v2 h ++ payload ->
   handle timeout rules cv = HError.
-Proof. exact (received_v2_tlv _). Qed.
+Proof. exact (received_v2_tlv _ _). Qed.
 
 (* placeholders: after an accepted header the replacer entries l4.conn.remote_addr /
    l4.conn.local_addr hold what the connection now reports (= the header's addresses by the
@@ -120,7 +120,7 @@ Proof. exact placeholders_follow_header. Qed.
 (* the handler as it was before commit cb6bc63 (no replacer update) violates it:
    peer 10.1.2.3:51000 sends "PROXY TCP4 1.2.3.4 5.6.7.8 1000 2000\r\n" *)
 Theorem C12_placeholders_without_update_refuted : exists cv v,
-  handle_with false 0 [] cv = HNext v /\ c_remote v = ATcp (IP4 16909060) 1000 /\ c_repl_remote v = ATcp (IP4 167838211) 51000.
+  handle_with false true 0 [] cv = HNext v /\ c_remote v = ATcp (IP4 16909060) 1000 /\ c_repl_remote v = ATcp (IP4 167838211) 51000.
 Proof.
   exists (wrap_connection (ATcp (IP4 167838211) 51000) (ATcp (IP4 2130706433) 4433)
             (encode_v1 (V1Tcp4 16909060 84281096 1000 2000) ++ txt "hello")).
@@ -135,10 +135,20 @@ Example C12_v2_local_keeps_real_addresses :
              c_repl_remote := ATcp (IP4 167838211) 51000; c_repl_local := ATcp (IP4 2130706433) 4433;
              c_stream := txt "x"; c_ppvar := Some (ATcp (IP4 167838211) 51000, ATcp (IP4 2130706433) 4433) |}.
 Proof. vm_compute. reflexivity. Qed.
-(* ... but after v1 "PROXY UNKNOWN" the handler reports a fabricated address with a nil IP and
-   port 0 instead of the real peer (recorded finding C12:addr:v1-unknown-*-not-real-peer) *)
-Theorem C12_v1_unknown_keeps_real_addresses_refuted : exists cv v,
-  handle 0 [] cv = HNext v /\ c_stream cv = encode_v1 V1Unknown ++ txt "x" /\
+(* ... and so does v1 "PROXY UNKNOWN": every allowed peer, every payload - the next handler sees
+   the REAL addresses, the placeholders hold them, the stream is the payload.  (The library alone
+   reports a *net.TCPAddr without IP here; Handler.Handle hands on a wrapper that falls back to
+   the connection's own addresses - fact read from handler.go.) *)
+Theorem C12_v1_unknown_keeps_real_addresses : forall timeout rules cv payload,
+  new_conn timeout rules (c_remote cv) <> None -> c_stream cv = encode_v1 V1Unknown ++ payload ->
+  exists v, handle timeout rules cv = HNext v /\
+    c_remote v = c_remote cv /\ c_local v = c_local cv /\ c_stream v = payload /\
+    c_repl_remote v = c_remote cv /\ c_repl_local v = c_local cv.
+Proof. exact unknown_keeps_real. Qed.
+(* the handler without that wrapper (before the repair) reported a fabricated address with a nil
+   IP and port 0 instead of the real peer 10.1.2.3:51000 *)
+Theorem C12_v1_unknown_without_wrapper_refuted : exists cv v,
+  handle_with true false 0 [] cv = HNext v /\ c_stream cv = encode_v1 V1Unknown ++ txt "x" /\
   c_remote cv = ATcp (IP4 167838211) 51000 /\ c_remote v = ATcp IPnil 0 /\ c_local v = ATcp IPnil 0.
 Proof.
   exists (wrap_connection (ATcp (IP4 167838211) 51000) (ATcp (IP4 2130706433) 4433) (encode_v1 V1Unknown ++ txt "x")).
@@ -206,7 +216,8 @@ Proof. exact roundtrip_v2. Qed.
 (* the matcher's prefixes in /repo are the signatures the model parses *)
 Example C12_consts_ok :
   l4proxyprotocol_headerV2Prefix = sig_v2 /\ l4proxyprotocol_headerV1Prefix = txt "PROXY" /\
-  l4proxyprotocol_handle_sets_placeholders = true /\ l4proxy_dial_uses_getconn = true /\
+  l4proxyprotocol_handle_sets_placeholders = true /\ l4proxyprotocol_undeclared_addr_falls_back = true /\
+  l4proxy_dial_uses_getconn = true /\
   l4proxy_dial_header_before_append = true.
 Proof. vm_compute. repeat split. Qed.
 
@@ -271,7 +282,8 @@ Print Assumptions C12_received_v2_tlv_dropped.
 Print Assumptions C12_placeholders_follow_header.
 Print Assumptions C12_placeholders_without_update_refuted.
 Print Assumptions C12_v2_local_keeps_real_addresses.
-Print Assumptions C12_v1_unknown_keeps_real_addresses_refuted.
+Print Assumptions C12_v1_unknown_keeps_real_addresses.
+Print Assumptions C12_v1_unknown_without_wrapper_refuted.
 Print Assumptions C12_sent_v1_is_spec_encoding.
 Print Assumptions C12_sent_v2_is_spec_encoding.
 Print Assumptions C12_sent_v1_one_header_then_stream.
